@@ -101,8 +101,14 @@ class RealAdapter:
                 return f.read()
         raise ValueError(kind)
 
+    def _count(self, key):
+        cc = self.it.call_counts
+        cc[key] = cc.get(key, 0) + 1
+
     def build_file(self, path, fname, func, args, kwargs, cmp='METADATA',
                    spelling=None, plain=False):
+        from .model import file_key
+        self._count(file_key(path))
         sp = spell(path, spelling, self.it.sb)
         if plain:
             return self.b.build_file(sp, fname, func, *args, **kwargs)
@@ -110,6 +116,13 @@ class RealAdapter:
             sp, self._cmp(cmp), fname, func, *args, **kwargs)
 
     def subbuild(self, fname, func, args, kwargs):
+        from .model import sub_key
+        from .util import jround
+        try:
+            self._count(sub_key(fname, jround(list(args)),
+                                jround(dict(kwargs))))
+        except (TypeError, ValueError):
+            pass
         return self.b.subbuild(fname, func, *args, **kwargs)
 
 
@@ -171,6 +184,7 @@ class Interp:
         self.nstmts = 0
         self.invalid = None
         self.injected_calls = []
+        self.call_counts = {}             # key -> number of calls so far
         self.build_no = 0
         self.crash_end = False
         self.stragglers = {}         # owner/tag -> list of call records
@@ -576,7 +590,10 @@ class Interp:
         else:
             key = sub_key(fname, jround(list(unjson(args))),
                           jround(dict(unjson(kwargs))))
-        self.injected_calls.append((key, type(e)))
+        # (the n-th call with this key: a key may be called again after a
+        # call that failed in setup)
+        self.injected_calls.append((key, type(e),
+                                    self.call_counts.get(key, 1)))
 
     def note_returned(self, func):
         for inv in func.invs:
